@@ -358,6 +358,12 @@ func (p *provider) createAllSingletonsWithContext(ctx context.Context) error {
 		}
 	}
 
+	// Registrations whose constructor has already run. A constructor that
+	// yields several services runs once, also when one of its outputs is nil
+	// and therefore leaves no instance behind. (Instance values have no
+	// constructor; each of their descriptors is stored on its own.)
+	constructed := make(map[uint64]struct{})
+
 	// Create instances in dependency order
 	for _, node := range sorted {
 		// Check context before each singleton creation
@@ -404,6 +410,10 @@ func (p *provider) createAllSingletonsWithContext(ctx context.Context) error {
 			continue
 		}
 
+		if _, done := constructed[descriptor.registration]; done && !descriptor.IsInstance {
+			continue
+		}
+
 		_, err := p.rootScope.createInstance(descriptor)
 		if err != nil {
 			return &ResolutionError{
@@ -412,6 +422,7 @@ func (p *provider) createAllSingletonsWithContext(ctx context.Context) error {
 				Cause:       err,
 			}
 		}
+		constructed[descriptor.registration] = struct{}{}
 	}
 
 	return nil
